@@ -33,6 +33,14 @@ func (u UploadMap) Empty() bool {
 }
 
 func (u *UploadMap) Add(upload *requests.Upload, varName string) {
+	// the same file can be used at several positions, it's sent once
+	for _, item := range *u {
+		if item.upload == upload {
+			item.positions = append(item.positions, fmt.Sprintf("variables.%s", varName))
+			return
+		}
+	}
+
 	*u = append(*u, &UploadMapItem{
 		upload,
 		[]string{fmt.Sprintf("variables.%s", varName)},
